@@ -163,11 +163,27 @@ func TestLiveness(t *testing.T) {
 			rotation = 40
 		}
 		bound := 20 * rotation * 3 * len(s.Correct) * int(target-s.MinHeight(s.Correct)+1)
-		s.Tracef("suffix target=%d bound=%d", target, bound)
+		// gossip in the suffix: (0) the simulator's superset rule throughout - everything a node holds and the other
+		// lacks, i.e. every delayed message of the prefix eventually arrives; (1) the backlog of the prefix is delivered
+		// once, from then on only what the product's gossip routines send to a peer in the receiver's CURRENT state
+		// (its own round, its POL round, the previous commit while it is in the new-height step); (2) that rule from the
+		// start (connections were re-established: the backlog is lost, peers start from each other's current state).
+		suffixGossip := rapid.SampledFrom([]string{"superset", "backlog-then-reactor", "reactor"}).Draw(t, "suffixgossip")
+		classes = append(classes, "suffix-gossip:"+suffixGossip)
+		s.Tracef("suffix target=%d bound=%d gossip=%s", target, bound, suffixGossip)
 		var ok bool
 		var why string
 		var timeouts int
-		ev.Guard(t, caseText, func() { ok, timeouts, why = s.SyncRun(s.Correct, target, bound) })
+		ev.Guard(t, caseText, func() {
+			switch suffixGossip {
+			case "backlog-then-reactor":
+				s.GossipToFixpoint(s.Correct)
+				s.ReactorGossip = true
+			case "reactor":
+				s.ReactorGossip = true
+			}
+			ok, timeouts, why = s.SyncRun(s.Correct, target, bound)
+		})
 		if !ok {
 			if strings.HasPrefix(why, "gossip did not") {
 				t.Fatalf("harness: %s", why)
